@@ -28,7 +28,7 @@ func (c ComplexAndPlanner) Process(ctx *shared.PlannerContext) (sql.ISelect, err
 			With(with).
 			Select(sql.NewSimpleCol("trace_id", "trace_id"),
 				sql.NewSimpleCol("_span_id", "span_id"),
-				sql.NewSimpleCol("max_timestamp_ns", "max_timestamp_ns"),
+				sql.NewSimpleCol("max_timestamp_ns", "timestamp_ns"),
 				sql.NewSimpleCol(strconv.Itoa(i), "_operand")).
 			From(sql.NewWithRef(with)).
 			Join(sql.NewJoin("array", sql.NewSimpleCol(with.GetAlias()+".span_id", "_span_id"), nil))
@@ -44,5 +44,5 @@ func (c ComplexAndPlanner) Process(ctx *shared.PlannerContext) (sql.ISelect, err
 		}, c.Prefix+"a")).
 		GroupBy(sql.NewRawObject("trace_id")).
 		AndHaving(sql.Eq(sql.NewRawObject("count(distinct _operand)"), sql.NewIntVal(int64(len(selects))))).
-		OrderBy(sql.NewOrderBy(sql.NewRawObject("max(max_timestamp_ns)"), sql.ORDER_BY_DIRECTION_DESC)), nil
+		OrderBy(sql.NewOrderBy(sql.NewRawObject("max(timestamp_ns)"), sql.ORDER_BY_DIRECTION_DESC)), nil
 }
